@@ -186,4 +186,24 @@ MpSelected(mp, s, p) ==
 FirstMp(mps, h, s, p) ==
     LET S == { i \in 1..Len(mps) : MpMatches(mps[i], h, s, p) }
     IN IF S = {} THEN 0 ELSE CHOOSE i \in S : \A j \in S : i <= j
+
+(***************************************************************************)
+(* The applications pool keeps TWO lists in registration order: mounts of  *)
+(* application pools / factories (kind "pool": synchronous or asynchronous *)
+(* flags alike) and "legacy" asynchronous applications mounted as objects  *)
+(* (kind "legacy").  entries = << [id, kind, mp] >> in registration order; *)
+(* gone = ids unmounted (pool) or destroyed (legacy; such stale entries are *)
+(* purged on the fly and never change who wins).  The first matching mount *)
+(* of the pool list wins; only if none matches, the first matching live    *)
+(* legacy mount; the URL handed to main() is that mount's selected group.  *)
+(***************************************************************************)
+NoMount == [id |-> 0, url |-> <<>>]
+PoolLookup(entries, gone, h, s, p) ==
+    LET P == SelectSeq(entries, LAMBDA e : e.kind = "pool" /\ e.id \notin gone)
+        G == SelectSeq(entries, LAMBDA e : e.kind = "legacy" /\ e.id \notin gone)
+        ip == FirstMp([i \in 1..Len(P) |-> P[i].mp], h, s, p)
+        ig == FirstMp([i \in 1..Len(G) |-> G[i].mp], h, s, p)
+    IN IF ip # 0 THEN [id |-> P[ip].id, url |-> MpSelected(P[ip].mp, s, p)]
+       ELSE IF ig # 0 THEN [id |-> G[ig].id, url |-> MpSelected(G[ig].mp, s, p)]
+       ELSE NoMount
 =============================================================================
